@@ -269,6 +269,54 @@ func (r *Recorder) step(ctx context.Context, dm string, sc Script, st Step, slot
 	r.append(res)
 }
 
+// Batch records one pipeline that carries one operation per key: every invocation, then the execution, then every reply.
+func (r *Recorder) Batch(ctx context.Context, dm, client string, p *pipePath, steps []Step) {
+	for _, st := range steps {
+		inv := trace.Ev{"t": "inv", "c": client, "k": st.Key, "path": p.Name() + "-batch", "dttl": 0}
+		switch st.Op {
+		case "put":
+			ttl, abs := ttlOf(st.Opts, r)
+			inv["op"], inv["v"], inv["nx"], inv["xx"], inv["ttl"], inv["abs"], inv["mode"] = "put", st.Val, st.Opts.NX, st.Opts.XX, ttl, abs, st.Opts.Mode
+		case "get", "del":
+			inv["op"] = st.Op
+		case "expire":
+			inv["op"], inv["ttl"] = "expire", int(st.D.Milliseconds())
+		case "getput":
+			inv["op"], inv["v"] = "getput", st.Val
+		case "incr", "incrf":
+			inv["op"], inv["d"] = "incr", st.Delta
+		case "decr":
+			inv["op"], inv["d"] = "incr", -st.Delta
+		}
+		r.append(inv)
+	}
+	reps := p.Batch(ctx, dm, steps)
+	for i, st := range steps {
+		rep := reps[i]
+		if st.Op == "get" && rep.Ret == "val" && (st.Num || st.Float) {
+			if st.Float {
+				if f, err := strconv.ParseFloat(rep.V, 64); err == nil {
+					rep.Ret, rep.N, rep.V = "num", int(f*Fixed), ""
+				}
+			} else if n, err := strconv.Atoi(rep.V); err == nil {
+				rep.Ret, rep.N, rep.V = "num", n, ""
+			}
+		}
+		res := trace.Ev{"t": "res", "c": client, "k": st.Key, "ret": rep.Ret, "v": rep.V, "n": rep.N}
+		if rep.TTLms >= 0 && (rep.Ret == "val" || rep.Ret == "num") {
+			if rep.TTLms == 0 {
+				res["ttlms"] = 0
+			} else {
+				res["ttlms"] = r.Rel(rep.TTLms)
+			}
+		}
+		if rep.Ret == "err" {
+			res["detail"] = rep.Err
+		}
+		r.append(res)
+	}
+}
+
 // History is the sub-history of one key.
 type History struct {
 	Key     string
